@@ -204,6 +204,7 @@ func (m *Muxer) updateFragment(ts uint64, boundary bool, frame *mpegts.Frame) er
 	// 注意，音频和视频是在一起检查的
 	if m.opened {
 		f := m.getCurrFrag()
+		forced := false
 
 		// 以下情况，强制开启新的分片：
 		// 1. 当前时间戳 - 当前分片的初始时间戳 > 配置中单个ts分片时长的10倍
@@ -222,6 +223,7 @@ func (m *Muxer) updateFragment(ts uint64, boundary bool, frame *mpegts.Frame) er
 			if err := m.openFragment(ts, true); err != nil {
 				return err
 			}
+			forced = true
 		}
 
 		// 更新当前分片的时间长度
@@ -231,7 +233,12 @@ func (m *Muxer) updateFragment(ts uint64, boundary bool, frame *mpegts.Frame) er
 		// 此处用最新收到的数据更新f.duration
 		// 但是假设fragment翻滚，数据可能是写入下一个分片中
 		// 是否就导致了f.duration和实际分片时间长度不一致
-		if ts > m.fragTs {
+		//
+		// after a forced split f is the fragment that has just been closed and listed: its duration is final.
+		// (openFragment hands control to the observer, whose FlushAudio feeds the cached audio back into this
+		// muxer; when that audio forces a split of its own, m.fragTs is no longer ts here, and the closed
+		// fragment would be given the distance between the two time stamps as its duration.)
+		if !forced && ts > m.fragTs {
 			duration := float64(ts-m.fragTs) / 90000
 			if duration > f.duration {
 				f.duration = duration
